@@ -248,6 +248,8 @@ impl Prop for C14 {
             let mut f = Feats::default();
             let mut cfg = TriviaCfg::plain();
             cfg.comments = t.flip();
+            // kept directives between tokens: the first token after a directive is a site too
+            cfg.directives = t.flip();
             (p.render(t, &cfg, &mut f), "svgen".to_string())
         };
         let src = if campaign == "included" {
